@@ -17,6 +17,37 @@ NOTES = ('Exit codes of bin/check: 0 every obligation discharged (KNOWN-FINDING 
          'known_findings.txt lists repaired (fixed:) and recorded (finding:) defects.')
 
 CLAIMED = {
+    'C06': {
+        'text': 'Deductive proof (Verus) on the verbatim body of Unifiable::unify, for all terms and all prior substitutions satisfying the input invariant: '
+                'a successful result keeps every earlier binding (extends), is again a well-formed substitution (ss_ok), equal terms unify with the identical substitution, '
+                'different constants fail, an unbound variable against a constant succeeds adding exactly that binding, and every new binding is of a previously unbound variable. '
+                'PARTIAL: general completeness, soundness as equality of resolved terms, and general minimality are not under proof (listed in evidence.not_covered_clauses).',
+        'note': 'Trusted: derived PartialEq/Clone (T1), vstd + Rc<T>: PartialEq axiom (T2), rewrite rules R2/R3/R6/R7 (T4). Termination of unify is not proved. Float/float inequality is an exec f64 comparison (unspecified in Verus).',
+        'technique': 'contract-based deductive verification (Verus) of extracted real code',
+        'design_ref': 'DESIGN.md 5/C06',
+    },
+    'C08': {
+        'text': 'Deductive proof (Verus): acyclicity of variable-to-variable chains is a pre/postcondition of the verbatim unify (every exit, including both loops and the recursive calls), '
+                'via lemma_bind_keeps_acyclic (binding an unbound x to a non-variable, or to a variable whose chain does not end at x, keeps all chains finite). Unbounded in sequence length: '
+                'the invariant composes over any sequence of successful unifications. Chain-walking functions get decreases clauses in unit subst.',
+        'note': 'Trusted: T1, T2, T4, T5. Termination of replace_variables / Display (recursion through structures) is not covered.',
+        'technique': 'contract-based deductive verification (Verus) of extracted real code',
+        'design_ref': 'DESIGN.md 5/C08',
+    },
+    'C09': {
+        'text': 'Deductive proof (Verus): postcondition of the verbatim unify - if either operand is $_ the result is Some of the identical substitution set (same Rc). '
+                'Because every nested position is reached through a recursive unify call checked against the same contract, the clause holds wherever $_ occurs.',
+        'note': 'Trusted: T1, T2, T4, T5. Programs using $_ through the solver are outside reach.',
+        'technique': 'contract-based deductive verification (Verus) of extracted real code',
+        'design_ref': 'DESIGN.md 5/C09',
+    },
+    'C13': {
+        'text': 'Deductive proof (Verus): unify carries the postcondition post_function - when one operand is a built-in function term the result satisfies the whole clause set (upost) of unifying '
+                "the function's value with the other operand, on either side and for function/function pairs; unify_sfunction is proved against the same clause set in unit functions.",
+        'note': 'Trusted: fn_value is uninterpreted (defined as what evaluate_* returns; those use iterator closures and floats, outside Verus; their arithmetic is checked by Kani under C12); T1, T2, T4, T5.',
+        'technique': 'contract-based deductive verification (Verus) of extracted real code',
+        'design_ref': 'DESIGN.md 5/C13',
+    },
     'C15': {
         'text': 'Deductive proof (Verus) on the verbatim bodies of make_linked_list and link_front: for every term vector satisfying the call-site precondition the result is a well-formed list '
                 '(empty-node terminated, per-node count = nodes to the end, only the last node a tail variable) whose element sequence, tail and length are exactly those of the statement '
